@@ -59,8 +59,15 @@ CUSTOM = {
     # UTM 33N built from the conversion alone (base CRS axes in lon, lat order), as PROJJSON text: pyproj calls it equal to
     # the PROJ string of 32633 and unequal to EPSG:32633.  Its WKT does not keep the base axis order, so only JSON routes are lossless
     "utm33conv": open(os.path.join(os.path.dirname(os.path.abspath(__file__)), "data", "utm33conv.json"), encoding="utf8").read().strip(),
+    "esri54009": "ESRI:54009",
+    "ogc84": "OGC:CRS84",
+    "esri102001": "ESRI:102001",
 }
 CUSTOM_ROUTES_FOR = {"utm33conv": ["json", "pyproj_json", "copy", "pickle", "user", "pyproj_user"]}
+# codes of authorities other than EPSG, exactly as typed and in other letter cases (routes user_lc / user_mc)
+AUTH_CODES = {"esri54009": "ESRI:54009", "ogc84": "OGC:CRS84", "esri102001": "ESRI:102001"}
+CASE_ROUTES = ["user", "user", "user_lc", "user_lc", "user_mc", "pyproj_user", "wkt2019", "json", "pyproj_wkt", "copy", "pickle"]
+OBJECT_OR_TEXT_ROUTES = {"wkt2019", "wkt2018", "json", "pyproj_epsg", "pyproj_wkt", "pyproj_json", "pyproj_user"}  # cache key is a pyproj object or a WKT text
 # triples on which pyproj's own == is not transitive (checked at start-up, see parent_init); [code, route-or-None]
 CHAINS = [
     [[7005, None], [7005, "proj4"], [20137, None]],
@@ -121,7 +128,7 @@ def parent_init(tier: str, opts: dict) -> None:
         if not pyproj_chain([[_material(x[0], x[1] or ("int" if x[0] in CODES else "user"))] for x in ch]):
             raise HarnessError(f"C19 reference: pyproj's == is transitive on {ch} here; the chain no longer exercises anything")
     for a in CODES + list(CUSTOM):  # what "lossless route" means: every material admitted for a definition is pyproj-equal to every other
-        mats = sorted({_material(a, r) for r in (CUSTOM_ROUTES_FOR.get(a, CUSTOM_ROUTES) if a in CUSTOM else ROUTES)})
+        mats = sorted({_material(a, r) for r in (CASE_ROUTES if a in AUTH_CODES else CUSTOM_ROUTES_FOR.get(a, CUSTOM_ROUTES) if a in CUSTOM else ROUTES)})
         bad = [(x, y) for x in mats for y in mats if not REF["eq"][(x, y)]]
         if bad:
             raise HarnessError(f"C19 reference: routes of {a} are not all equivalent for pyproj: {bad[:3]}")
@@ -152,8 +159,10 @@ def _material(code: Any, route: str) -> Tuple[Any, str]:
     if route in ("json", "pyproj_json"):
         return (code, "json")
     if custom:
-        if route in ("user", "pyproj_user") or code in CUSTOM_ROUTES_FOR:
+        if route in ("user", "pyproj_user", "user_lc", "user_mc") or code in CUSTOM_ROUTES_FOR:
             return (code, "user")
+        if code in AUTH_CODES:
+            return (code, "user")  # copy / pickle of a value built from the code as typed
         return (code, "wkt2019")  # copy / pickle of a value built from the WKT text
     return (code, "epsg")
 
@@ -164,7 +173,7 @@ def _collides(code: Any, route: str) -> bool:
     pyproj object such a CRS ends up holding is the one built by whichever came first."""
     if route in ("wkt2019", "json", "pyproj_epsg", "pyproj_wkt", "pyproj_json", "pyproj_user"):
         return True
-    return code in CUSTOM and code not in CUSTOM_ROUTES_FOR and route in ("copy", "pickle")
+    return code in CUSTOM and code not in CUSTOM_ROUTES_FOR and code not in AUTH_CODES and route in ("copy", "pickle")
 
 
 def pyproj_chain(cands3: List[List[Any]]) -> bool:
@@ -199,6 +208,26 @@ def _axis_swapped(code: Any) -> bool:
     return bool(ai) and ai[0].direction.lower() in ("north", "south")
 
 
+def _route_class(detail: Dict[str, Any]) -> str:
+    """'object-or-text' when any CRS named in the violation was built through a route whose
+    construction-cache key is a pyproj object or a WKT text, else 'code-string'."""
+    found: List[Tuple[Any, str]] = []
+
+    def walk(x: Any) -> None:
+        if isinstance(x, (list, tuple)):
+            if len(x) == 2 and isinstance(x[1], str) and not isinstance(x[0], (list, tuple)) and (x[0] in CUSTOM or x[0] in CODES or x[0] in CHURN_CODES):
+                found.append((x[0], x[1]))
+            for y in x:
+                walk(y)
+
+    for k in ("spec", "a", "b", "c"):
+        walk(detail.get(k))
+    for code, route in found:
+        if route in OBJECT_OR_TEXT_ROUTES or (route in ("copy", "pickle") and code in CUSTOM and code not in CUSTOM_ROUTES_FOR and code not in AUTH_CODES):
+            return "object-or-text"
+    return "code-string"
+
+
 def same_crs_spelling(sa: str, sb: str) -> bool:
     """Both strings are valid spellings of one and the same CRS (checked with pyproj directly)."""
     import pyproj
@@ -222,6 +251,8 @@ NEEDS_CRS = {"bbox", "geom", "geobox", "gcp", "gbtiles", "gridspec"}
 def _draw_crs_spec(rng: random.Random) -> List[Any]:
     if rng.random() < 0.12:
         name = rng.choice(sorted(CUSTOM))
+        if name in AUTH_CODES:
+            return ["crs", name, rng.choice(CASE_ROUTES)]
         return ["crs", name, rng.choice(CUSTOM_ROUTES_FOR.get(name, CUSTOM_ROUTES))]
     if rng.random() < 0.08:
         return ["crs", rng.choice(sorted(PROJ4)), "proj4"]
@@ -260,7 +291,7 @@ def generate(rng: random.Random, tier: str) -> dict:
         rng.shuffle(chain)
         for code, route in chain:
             if route is None:
-                route = rng.choice(CUSTOM_ROUTES_FOR.get(code, CUSTOM_ROUTES) if code in CUSTOM else ROUTES)
+                route = rng.choice(CASE_ROUTES if code in AUTH_CODES else CUSTOM_ROUTES_FOR.get(code, CUSTOM_ROUTES) if code in CUSTOM else ROUTES)
             add_crs(["crs", code, route])
         if rng.random() < 0.5:
             kind, var = rng.choice(sorted(NEEDS_CRS)), rng.randrange(17)
@@ -318,6 +349,14 @@ def generate(rng: random.Random, tier: str) -> dict:
             # pair laws live within a kind: stay with the family already in the pool most of the time
             kind = focus[rng.randrange(len(focus))] if rng.random() < 0.75 else rng.choice(COMP_KINDS)
             ref = rng.choice(crs_slots) if (crs_slots and kind in NEEDS_CRS and rng.random() < 0.9) else None
+            if kind in LADDER_KINDS and n_pool <= 13 and rng.random() < 0.15:
+                # three members one tolerance-ladder step apart (see LADDER0), in a drawn order
+                field, rung = rng.randrange(LADDER_FIELDS), rng.randrange(LADDER_RUNGS)
+                for m in rng.sample([0, 1, 2], 3):
+                    steps.append(["comp", kind, ladder_variant(field, rung, m), ref])
+                    val_slots.append(n_pool)
+                    n_pool += 1
+                continue
             steps.append(["comp", kind, rng.randrange(17), ref])
             val_slots.append(n_pool)
             n_pool += 1
@@ -378,6 +417,10 @@ def build_crs(code: Any, route: str) -> Any:
         return CRS(PROJ4[int(code)])
     if route == "user":
         return CRS(CUSTOM[code])  # the definition exactly as a user would type it
+    if route in ("user_lc", "user_mc"):
+        # the authority name in another letter case: "esri:54009", "Ogc:CRS84" (the code itself is case-sensitive for PROJ)
+        auth, _, c = CUSTOM[code].partition(":")
+        return CRS(f"{auth.lower() if route == 'user_lc' else auth.capitalize()}:{c}")
     if route == "pyproj_user":
         return CRS(pyproj.CRS.from_user_input(CUSTOM[code]))
     if route == "int":
@@ -402,7 +445,7 @@ def build_crs(code: Any, route: str) -> Any:
         return CRS(pyproj.CRS.from_wkt(sp["wkt2019"]))
     if route == "pyproj_json":
         return CRS(pyproj.CRS.from_json_dict(copy.deepcopy(sp["json"])))
-    base = CRS(int(code)) if isinstance(code, int) else CRS(CUSTOM[code] if code in CUSTOM_ROUTES_FOR else sp["wkt2019"])
+    base = CRS(int(code)) if isinstance(code, int) else CRS(CUSTOM[code] if (code in CUSTOM_ROUTES_FOR or code in AUTH_CODES) else sp["wkt2019"])
     if route == "copy":
         return CRS(base)
     if route == "pickle":
@@ -421,6 +464,8 @@ def build_comp(kind: str, v: int, crs: Any) -> Any:
     from odc.geo.types import ixy_, resyx_, shape_, xy_
 
     TINY = 1e-9  # relative: beyond what "%g"-style formatting keeps, well within double precision
+    if v >= LADDER0:
+        return _ladder_member(kind, v, crs)
     if kind == "bbox":
         v = v % 10
         box = [0.0, 0.0, 10.0, 20.0]
@@ -548,6 +593,84 @@ class _Skip(Exception):
     pass
 
 
+# Ladder members: three values of one kind that differ in ONE float field by 0, 1 and 2 steps, the step being
+# 0.6e-13 * 2**rung relative (rungs 0..39: 6e-14 ... 0.033).  Any tolerance T used in an equality test has
+# exactly one rung with a step in [T/2, T): there the outer members are unequal while each equals the middle
+# one, so a tolerance-based == shows up as a transitivity (or hash / token) violation whatever T is.
+LADDER0 = 1000
+LADDER_KINDS = ("bbox", "geom", "geobox", "gcp", "gbtiles", "gridspec", "xy", "res")
+LADDER_RUNGS = 40
+LADDER_FIELDS = 4
+
+
+def ladder_variant(field: int, rung: int, m: int) -> int:
+    return LADDER0 + ((field % LADDER_FIELDS) * LADDER_RUNGS + (rung % LADDER_RUNGS)) * 3 + (m % 3)
+
+
+def _ladder_member(kind: str, v: int, crs: Any) -> Any:
+    # pylint: disable=too-many-return-statements,import-outside-toplevel
+    import numpy as np
+    from affine import Affine
+    from odc.geo import geom
+    from odc.geo.gcp import GCPGeoBox, GCPMapping
+    from odc.geo.geobox import GeoBox, GeoboxTiles
+    from odc.geo.gridspec import GridSpec
+    from odc.geo.types import resyx_, xy_
+
+    fr, m = divmod(v - LADDER0, 3)
+    field, rung = divmod(fr, LADDER_RUNGS)
+    k = 1.0 + m * 0.6e-13 * 2.0**rung
+
+    def bump(vals: List[float], i: int) -> List[float]:
+        vals = list(vals)
+        vals[i % len(vals)] *= k
+        return vals
+
+    if kind == "bbox":
+        return geom.BoundingBox(*bump([5.0, 7.0, 10.0, 20.0], field), crs=crs)
+    if kind == "geom":
+        if field < 2:
+            return geom.point(*bump([431000.0, 2.0], field), crs)
+        if field == 2:
+            return geom.polygon([(0, 0), (0, 2), (2 * k, 2), (2, 0), (0, 0)], crs)
+        return geom.line([(0, 0), (1, 1), (2, 0.5 * k)], crs)
+    if kind == "geobox":
+        a = [10.0, 0.0, 100.0, 0.0, -10.0, 500.0]
+        a[[0, 2, 4, 5][field]] *= k
+        return GeoBox((10, 12), Affine(*a), crs)
+    if kind == "gcp":
+        pix = [[0.0, 0.0], [10.0, 0.0], [10.0, 12.0], [0.0, 12.0], [5.0, 6.0]]
+        wld = [[431100.0, 500.0], [431200.0, 501.0], [431202.0, 380.0], [431099.0, 379.0], [431150.0, 440.0]]
+        if field == 0:
+            wld[2][0] *= k
+        elif field == 1:
+            wld[2][1] *= k
+        elif field == 2:
+            pix[1][0] *= k
+        else:
+            wld[0][0] *= k
+        return GCPGeoBox((12, 10), GCPMapping(np.asarray(pix, dtype="float64"), np.asarray(wld, dtype="float64"), crs), None)
+    if kind == "gbtiles":
+        a = [10.0, 0.0, 100.0, 0.0, -10.0, 500.0]
+        a[[2, 5, 0, 4][field]] *= k
+        return GeoboxTiles(GeoBox((20, 30), Affine(*a), crs), (10, 10))
+    if kind == "gridspec":
+        if crs is None:
+            raise _Skip()
+        res = [-10.0, 10.0]
+        org = [5.0, 3.0]
+        if field < 2:
+            res[field] *= k
+        else:
+            org[field - 2] *= k
+        return GridSpec(crs, (100, 100), resyx_(*res), xy_(*org))
+    if kind == "xy":
+        return xy_(*bump([431000.0, 2.0], field))
+    if kind == "res":
+        return resyx_(*bump([-10.0, 10.0], field))
+    raise HarnessError(f"no ladder for kind {kind}")
+
+
 HASHABLE_KINDS = {"crs", "bbox", "geobox", "gcp", "xy", "res", "shape", "index"}
 
 
@@ -650,6 +773,10 @@ class History:
             cause = "crs-spelling"
         detail = dict(detail)
         detail["cause"] = cause
+        if cause == "crs-spelling":
+            # D19a's mechanism is a construction-cache key that is a pyproj object or a WKT text; a CRS typed as
+            # an authority code (any authority, any letter case) never takes part in it on the current tree
+            detail["route_class"] = _route_class(detail)
         detail["step"] = self.steps_done
         v = Violation(PROP, oracle, sig, detail)
         if cause is not None:
@@ -1161,7 +1288,7 @@ class History:
 # --------------------------------------------------------------------------------------
 _PEER: Dict[str, Any] = {}
 PEER_HASHSEED = "271828"
-STABLE_ROUTES = ("int", "EPSG", "epsg", "Epsg")  # CRS spellings whose str() does not depend on the peer's own history
+STABLE_ROUTES = ("int", "EPSG", "epsg", "Epsg", "user", "user_lc", "user_mc")  # CRS spellings whose str() does not depend on the peer's own history
 
 
 def _send(f, obj) -> None:
